@@ -35,13 +35,16 @@ var ErrClosed = errors.New("limiters: Rate bucket is closed")
 // Rate.Close causes all waiting Take to return false. TakeContext returns
 // ErrClosed in this case.
 //
-// If burstSize = 0, all methods are no-op and always succeed.
+// If burstSize <= 0, all methods are no-op and always succeed.
 type Rate struct {
 	bucket chan struct{}
 	stop   chan struct{}
 }
 
 func NewRate(burstSize int, interval time.Duration) Rate {
+	if burstSize < 0 {
+		burstSize = 0
+	}
 	r := Rate{
 		bucket: make(chan struct{}, burstSize),
 		stop:   make(chan struct{}),
